@@ -157,3 +157,87 @@ func (g *Graph) EdgeKeys() [][2]string {
 	})
 	return out
 }
+
+// ContentDiff compares what a tree walk returned with the model: every placement the model knows
+// must be there with exactly the model's newest point per identity (time, value, text, tombstone),
+// and no harness node may hold an identity the model does not know. The instance root is only
+// checked for the identities the model has (the instance writes points of its own there); placements
+// listed in instanceOwn (what a walk of the fresh instance returned, e.g. the default admin user) are
+// skipped unless the model knows them.
+func ContentDiff(w map[string]Placement, g *Graph, instanceOwn map[string]bool) string {
+	eq := func(a, b data.Point) bool {
+		return a.Time.UnixNano() == b.Time.UnixNano() && (a.Value == b.Value || (a.Value != a.Value && b.Value != b.Value)) && a.Text == b.Text && a.Tombstone == b.Tombstone
+	}
+	var keys []string
+	for k := range w {
+		keys = append(keys, k)
+	}
+	sort.Strings(keys)
+	for _, k := range keys {
+		pl := w[k]
+		if _, known := g.Edges[[2]string{pl.Parent, pl.ID}]; !known && instanceOwn[k] {
+			continue
+		}
+		mp := g.NodeP[pl.ID]
+		seen := map[[2]string]int{}
+		for _, p := range pl.Points {
+			ik := identKey(p)
+			seen[ik]++
+			want, ok := mp[ik]
+			if !ok {
+				if pl.ID == g.Root {
+					continue
+				}
+				return "node " + pl.ID + " holds point " + CanonPoint(p) + " that no accepted write put there"
+			}
+			if pl.ID == g.Root && p.Time.After(want.Time) {
+				continue
+			}
+			if !eq(want, p) {
+				return "node " + pl.ID + " holds " + CanonPoint(p) + ", the newest accepted write is " + CanonPoint(want)
+			}
+			if seen[ik] > 1 {
+				return "node " + pl.ID + " holds two points for identity " + ik[0] + "/" + ik[1]
+			}
+		}
+		for ik, want := range mp {
+			if seen[ik] == 0 {
+				return "node " + pl.ID + " lacks " + CanonPoint(want)
+			}
+		}
+		me, known := g.Edges[[2]string{pl.Parent, pl.ID}]
+		if !known {
+			return "placement " + k + " exists in the store but no accepted write created it"
+		}
+		seenE := map[[2]string]int{}
+		for _, p := range pl.EdgePoints {
+			if p.Type == data.PointTypeNodeType {
+				continue
+			}
+			ik := identKey(p)
+			seenE[ik]++
+			want, ok := me[ik]
+			if !ok && pl.ID == g.Root {
+				continue
+			}
+			if !ok {
+				return "edge " + k + " holds point " + CanonPoint(p) + " that no accepted write put there"
+			}
+			if pl.ID == g.Root && p.Time.After(want.Time) {
+				continue // written by the instance itself, later than the harness's write
+			}
+			if !eq(want, p) {
+				return "edge " + k + " holds " + CanonPoint(p) + ", the newest accepted write is " + CanonPoint(want)
+			}
+			if seenE[ik] > 1 {
+				return "edge " + k + " holds two points for identity " + ik[0] + "/" + ik[1]
+			}
+		}
+		for ik, want := range me {
+			if seenE[ik] == 0 {
+				return "edge " + k + " lacks " + CanonPoint(want)
+			}
+		}
+	}
+	return ""
+}
